@@ -14,6 +14,7 @@ P4  immediate queue discipline: insertion only at the tail of heads[prio] and
     heads[minq]; minq only advances past queues tested empty
 P5  at least one: a fetched event is dispatched before the function can return
 """
+import json
 from .. import cdb, ir, report
 from ..ir import norm, show, root_var, subterms
 from ..dataflow import Solver, cond_atoms
@@ -375,6 +376,35 @@ def p4(prog, rep):
                     pinit = norm(can.elem(d["init"]))
     rep.check(bool(remc) and all(x == "prio" for x in remc) and pinit is not None and pinit[0] == "." and pinit[2] == "prio", "P4-queue",
               "cancel unlinks from the queue of the node's own priority", can.loc, "", function=can.name, construct="cancel-queue")
+    # initial state: every one of the queues starts as an empty tail queue of its own -- first == NULL, last == &heads[i].first.
+    # (A head whose `last` points into a neighbour's head makes the first insertion at that priority land in the neighbour's queue.)
+    hg = [g for g in u.globals if g.get("name") == "heads" and g.get("isdef") and g.get("file") == u.path]
+    if not hg:
+        rep.defer_broken("P4-queue: the array of queue heads is not defined in events_immediate.c")
+        return
+    hg = hg[-1]
+    at = u.types.get(hg.get("ty")) or {}
+    rec = u.records.get((at.get("elem") or "").replace("struct ", "")) or {}
+    fields = [x["name"] for x in rec.get("fields", [])]
+    tree = (hg.get("init") or {}).get("tree") if isinstance(hg.get("init"), dict) else None
+    runtime_init = [e for f in u.funcs if f.file == u.path for e in f.all_elems() if "TAILQ_INIT" in e.macro]
+    if tree is None and runtime_init:
+        rep.unknown("P4-queue", "initial state of the queues", hg.get("loc", u.path), "initialised at run time (TAILQ_INIT): not decided here")
+    else:
+        wrong = []
+        ents = (tree or {}).get("list") or []
+        n = at.get("count")
+        if len(fields) != 2 or n is None:
+            wrong.append("the head record is not a (first, last) pair or the array has no constant size")
+        elif len(ents) != n:
+            wrong.append("%d initialisers for %d queues (a zero-filled head has last == NULL)" % (len(ents), n))
+        else:
+            for i, ent in enumerate(ents):
+                l = (ent or {}).get("list") or []
+                if len(l) != 2 or l[0] != {"int": 0} or (l[1] or {}).get("addr") != "heads" or (l[1] or {}).get("path") != [i, fields[0]]:
+                    wrong.append("heads[%d] starts as %s" % (i, json.dumps(l)[:120]))
+        rep.check(not wrong, "P4-queue", "every queue starts empty with its own tail pointer: heads[i] = { NULL, &heads[i].first }", hg.get("loc", u.path),
+                  "; ".join(wrong[:3]), function="heads", construct="heads-init")
 
 
 def walk_decision(f, start, targets, decide):
